@@ -800,6 +800,45 @@ func genSkeletons(c *ex.Ctx, sb *strings.Builder, fCell, fSS *ast.File) {
 			}
 		}
 	}
+	// How ParseStyledString builds the reader it hands to ansi.NewParser (the parser's grapheme look-ahead only sees what that
+	// reader has buffered): "whole-string" = a bufio.Reader sized to hold the whole string (one read delivers everything;
+	// since the fix: for F122), "default-buffer" = strings.NewReader directly (the parser's own 4096-byte reader: reads of at
+	// most the buffer size), "unknown" = any other shape (the model then has no reader: Props.C18Reader.reader_recognised fails).
+	reader := "unknown"
+	if fd := ex.FindFunc(fCell, "", "ParseStyledString"); fd != nil && fd.Body != nil {
+		defs := map[string]string{}
+		ast.Inspect(fd.Body, func(m ast.Node) bool {
+			switch v := m.(type) {
+			case *ast.AssignStmt:
+				if len(v.Lhs) == 1 && len(v.Rhs) == 1 {
+					if id, ok := v.Lhs[0].(*ast.Ident); ok {
+						defs[id.Name] = norm(c, v.Rhs[0])
+					}
+				}
+			case *ast.CallExpr:
+				if norm(c, v.Fun) == "ansi.NewParser" && len(v.Args) == 1 {
+					arg := norm(c, v.Args[0])
+					if id, ok := v.Args[0].(*ast.Ident); ok {
+						if d, ok := defs[id.Name]; ok {
+							arg = d
+						}
+					}
+					param := "s"
+					if fd.Type.Params != nil && len(fd.Type.Params.List) == 1 && len(fd.Type.Params.List[0].Names) == 1 {
+						param = fd.Type.Params.List[0].Names[0].Name
+					}
+					switch arg {
+					case "bufio.NewReaderSize(strings.NewReader(" + param + "), len(" + param + "))":
+						reader = "whole-string"
+					case "strings.NewReader(" + param + ")":
+						reader = "default-buffer"
+					}
+				}
+			}
+			return true
+		})
+	}
+	fmt.Fprintf(sb, "/-- How ParseStyledString builds the reader of its parser: \"whole-string\" (bufio.NewReaderSize(strings.NewReader(s), len(s)):\n    everything arrives in one read), \"default-buffer\" (strings.NewReader(s): reads of at most bufio's default buffer size) or \"unknown\". -/\ndef parseStyledReader : String := %s\n\n", ex.LeanStr(reader))
 	emit("nssCases", "NewStyledString: the conditions of the outer `switch` in the `for len(s) > 0` loop, in order", nssCases)
 	emit("nssCsi", "NewStyledString, case CSI: statement heads (= SgrBytes.hasCsiPrefix / cutM / the two early exits / splitParams / the i-loop)", nssCsi)
 	emit("nssOsc8", "NewStyledString, case OSC 8 (= SgrBytes.hasOsc8Prefix / cutST)", nssOsc)
